@@ -126,7 +126,7 @@ func main() {
 		},
 		Cases: func(tier string) int {
 			if tier == "thorough" {
-				return 1000
+				return 400
 			}
 			return 48
 		},
